@@ -51,7 +51,7 @@ def enc(s):
         return "%"
     out = []
     for b in s.encode("utf-8", "surrogatepass"):
-        if 0x20 < b < 0x7F and b != 0x25:
+        if 0x20 < b < 0x7F and b not in (0x25, 0x7C, 0x3D):
             out.append(chr(b))
         else:
             out.append("%%%02X" % b)
